@@ -2,6 +2,7 @@
 from __future__ import annotations
 
 import io
+import json
 import math
 from fractions import Fraction as Fr
 
@@ -82,6 +83,12 @@ def export_scope(case):
                          output_values=case["outputs"])
     scope = fl.FldExporter.ScopeOfValues.AllVariables if case["scope"] == "all" else fl.FldExporter.ScopeOfValues.EachVariable
     with fl.settings.context(decimals=case["decimals"]):
+        if case.get("reuse"):
+            # the same exporter object has been used before, for a grid of the same shape (this engine and another one with
+            # as many inputs): an export does not depend on what the exporter did earlier
+            exp.to_string_from_scope(e, case["v"], scope, active)
+            other = mk_engine(case["n"], "ts" if case["kind"] != "ts" else "mamdani")
+            exp.to_string_from_scope(other, case["v"], scope, {iv for i, iv in enumerate(other.input_variables) if case["active"][i]})
         text = exp.to_string_from_scope(e, case["v"], scope, active)
     return e, text
 
@@ -184,6 +191,15 @@ def key(case):
 
 
 def oracle(case):
+    try:
+        return oracle_(case)
+    except Exception as ex:  # noqa: BLE001
+        # the exported text could not even be read back as a table of numbers in the configured layout
+        return False, (f"the export of case {json.dumps(case, default=str)[:200]} cannot be read back as rows of numbers separated by "
+                       f"{case.get('sep', ' ')!r}: {type(ex).__name__}: {ex}")
+
+
+def oracle_(case):
     """property oracle, independent of Lean: grid size, equidistant values from minimum to maximum, lexicographic order"""
     if case.get("reader") is not None:
         return oracle_reader(case)
@@ -287,7 +303,7 @@ def gen_cases(ctx):
         ins, outs = rng.choice([(True, True), (True, True), (True, False), (False, True)])  # at least one column
         yield {"n": n, "kind": rng.choice(["mamdani", "ts"]), "scope": scope, "v": v, "active": active,
                "sep": rng.choice([" ", ",", "\t", ";"]), "headers": rng.random() < 0.7, "inputs": ins,
-               "outputs": outs, "decimals": rng.choice([0, 1, 3, 6, 9])}
+               "outputs": outs, "decimals": rng.choice([0, 1, 3, 6, 9]), "reuse": rng.random() < 0.3}
 
 
 def gen_readers(ctx):
